@@ -459,10 +459,18 @@ def main():
                   "loader: every byte string of length <= L over {00,01,02,03,7F,80,FF} after the version word and as the whole file + mutated valid images; "
                   "crash: a child process dies at EVERY crash point of a save, for every forest of <= 3 entries and random larger ones, over an existing .fav and "
                   "over every other initial state of the home (no .fav, .fav4 lying around or being converted by Load, .fav older / same mtime / newer / same content, stale temporary file); "
-                  "after each death the whole directory is compared with the model's file system and fav.Load is run. "
+                  "after each death the whole directory is compared with the model's file system and fav.Load is run; "
+                  "kill at system-call granularity: the saving child runs under ptrace(2) and is killed (SIGKILL) at the entry of EVERY file-system call of the save as the kernel sees it "
+                  "(open for writing, write, rename, unlink, truncate, link, mkdir, chmod ...; all forests of <= 2 entries over an older / same-mtime / newer .fav, as first save, with .fav4 and stale temporary file, + PRNG(seed) larger ones), "
+                  "the recorded call list is compared with save_calls of the model and the directory + fav.Load after each kill with the model's prefix. "
                   "A case is non-trivial if it is a distinct saved tree / distinct loader input reaching a distinct result class / distinct (tree, crash point)",
              assumptions=["rename(2) replaces the target atomically and data written before the process dies survives it (no power loss): Base/Fs.v",
-                          "the process death is simulated by os.Exit at verif-tagged crash points (before every types.BinaryWrite of the save and before the rename)",
+                          "the process death is simulated by os.Exit at verif-tagged crash points (before every types.BinaryWrite of the save and before the rename) in sweeps 5 and 6, "
+                          "and is a real SIGKILL at the entry of every file-system call (ptrace syscall-entry stop: the kernel does not execute the call) in sweep 8; the window of sweep 8 is the call of FavRaw.Save in the child "
+                          "(two marker access(2) calls around it), calls are recognised by their x86-64 system-call number (a change of the directory through io_uring or a memory-mapped file would not be seen as a call; its effect on the "
+                          "directory at the other kill points still would)",
+                          "what a SECOND process or goroutine reading .fav concurrently sees is not driven as a race: it is covered by the kill sweep in so far as a reader sees a directory state that exists between two file-system calls of the saver "
+                          "(every such state is produced and fav.Load is run on it) - theorem for the call list of the model (C19_save_calls_any_disk), validation for the tie of that list to the kernel's view (ptrace)",
                           "the mtime comparison of Save is driven through the exported MTime field (newer / equal / older than the file)",
                           "the .fav4 files of the conversion sweep are written by the check (boards and lines only: fav4ReadFavrec rejects every .fav4 that contains a folder)",
                           "a stale temporary file is planted under a fixed name .fav.tmp.stale-left-by-a-crash; a collision with the 22 random characters of the save's own temporary name is covered by the theorem (any directory) only",
@@ -959,6 +967,122 @@ def run(c, rng, thorough, impl, model, scratch):
                                      "several byte positions of every forest of <= 2 entries, each followed by ordinary Saves of the same and of other users in the same process")
     c.sample({"op": "history of saves", "case": l8[0], "result": o8[0][:200]})
     lap("7 histories")
+
+    # ---------------------------------------------------------------- 8. kill points at SYSTEM-CALL granularity (op 9)
+    # The crash points of 5. and 6. are calls placed in the source: whatever one step of the source does inside (a helper
+    # that unlinks the target before it renames, a copy instead of a rename) lies between two of them. Here the saving
+    # child runs under ptrace(2): every file-system call of the save is recorded as the kernel sees it and the child is
+    # killed (SIGKILL) at the entry of the k-th one, for every k; the whole directory and fav.Load afterwards are observed.
+    CALLK = {1: "open-for-writing", 2: "write", 3: "rename", 4: "unlink", 5: "truncate", 6: "link", 7: "mkdir", 8: "other-change"}
+    NAMEK = {-1: "", 0: ".fav", 1: ".fav.tmp.*", 2: ".fav4", 3: "the stale temporary file", 4: ".fav.bak", 8: "the home", 9: "another path"}
+
+    def show_call(cl):
+        kd, a, b, nb = cl
+        return "%s(%s%s%s)" % (CALLK.get(kd, "?"), NAMEK.get(a, "?"), ", " + NAMEK.get(b, "?") if b != -1 else "", ", %d bytes" % nb if kd == 2 else "")
+    cases9 = []          # (label, hasfav, rel, fav4, stale, old script, new script)
+    demo_old, demo_new = script_of(("B", "B", "B")), script_of(("B", "L"))
+    cases9.append(("save over an older .fav", 1, 1, None, None, demo_old, demo_new))
+    for i, f in enumerate(small2):
+        sc = script_of(f)
+        cases9.append(("save over an older .fav", 1, 1, None, None, base_old, sc))
+        if i % 4 == 0:
+            cases9.append(("save over an older .fav + .fav4 + stale temp file", 1, 1, fav4_other, stale_imgs[i % 4], sc, base_old))
+        elif i % 4 == 1:
+            cases9.append(("first save", 0, (1, 0, -1)[i % 3], None, None, "", sc))
+        elif i % 4 == 2:
+            cases9.append(("save over a .fav with the same mtime", 1, 0, None, None, base_old, sc))
+            cases9.append(("first save + .fav4 + stale temp file", 0, 1, fav4_other, stale_imgs[(i + 1) % 4], "", sc))
+        else:
+            cases9.append(("save over a newer .fav", 1, -1, None, None, base_old, sc))
+    for f in (small3 if thorough else small3[len(small2)::16]):
+        cases9.append(("save over an older .fav", 1, 1, None, None, script_of(f), base_old))
+    for _ in range(40 if thorough else 2):
+        cases9.append(("save over an older .fav + stale temp file", 1, 1, None, rng.choice(stale_imgs),
+                       script_of(random_forest(rng, rng.choice([2, 6]), 3), rng, 0.2), script_of(random_forest(rng, rng.choice([5, 9]), 4), rng, 0.2)))
+
+    def trace_line(hasfav, rel, fav4, stale, old, new):
+        return "9|%d %d|%s" % (hasfav, rel, sweep_line(hasfav, 0, rel, fav4, stale, old, new).split("|", 2)[2])
+    l9 = [trace_line(*cs[1:]) for cs in cases9]
+    o9 = par_impl(l9)
+    m9 = vf.run_model(model, l9) if model else None
+    if any(r.split()[:2] == ["3", "20"] for r in o9):
+        raise SystemExit("C19: ptrace(2) is not available to the implementation driver: the system-call kill sweep cannot run here")
+    if model:
+        vf.correspond(c, "system-call list of a save (ptrace) and the directory + Load after a kill at the entry of every call", l9, o9, m9)
+    ncalls9 = 0
+    dist9 = {}
+    for i9, (cs, line, res) in enumerate(zip(cases9, l9, o9)):
+        label, hasfav, rel, fav4, stale, old_sc, new_sc = cs
+        rp = {"cases": [line]}
+        if m9:
+            rp["expected"] = m9[i9][:4000]
+        if res.split()[0] != "0":
+            c.violation("syscall-sweep-failed", "%s: the system-call kill sweep could not be run (status %s)" % (label, res.split()[0]), dict(rp, got=res[:200]))
+            continue
+        # header as op 7, then the call list, then the states
+        t = res.split()
+        pos = 1
+        pos += 1 + int(t[pos]); pos += 1 + int(t[pos])
+        N = int(t[pos])
+        calls = [tuple(int(x) for x in t[pos + 1 + 4 * j:pos + 5 + 4 * j]) for j in range(N)]
+        pre_old, pre_new, K, states = parse_sweep(" ".join(t[:pos] + [str(N)] + t[pos + 1 + 4 * N:]))
+        rp["calls"] = [show_call(cl) for cl in calls]
+        ncalls9 += K + 1
+        dist9[label] = dist9.get(label, 0) + K + 1
+        want_old, want_new = expected_after_save(pre_old), expected_after_save(pre_new)
+        OLD = VERSION + ref_write(want_old) if hasfav else None
+        NEW = VERSION + ref_write(want_new)
+        gate_open = (not hasfav) or rel > 0
+        before = "no .fav" if OLD is None else "the old .fav"
+        for k, (files, load) in enumerate(states, 1):
+            c.nontrivial(("kill9", line, k))
+            if k <= K:
+                at = "the entry of file-system call %d of %d, %s" % (k, K, show_call(calls[k - 1]))
+                if k > 1:
+                    at += ", i.e. right after " + show_call(calls[k - 2])
+            else:
+                at = "the end of the save"
+            cur = files.get(F_FAV, [None])[0]
+            ok_states = [OLD, NEW] if gate_open else [OLD]
+            if k == K + 1:
+                ok_states = [NEW] if gate_open else [OLD]
+            if cur not in ok_states:
+                if k == K + 1:
+                    c.violation("save-incomplete", "%s: a completed save left neither image" % label, dict(rp, got=".fav = " + showf(cur), expected_fav=showf(ok_states[0])))
+                elif not gate_open:
+                    c.violation("gate-writes", "%s: Save changed .fav although the file is not older than the tree in memory" % label,
+                                dict(rp, kill_at_call=k, got=".fav = " + showf(cur), expected_fav=showf(OLD)))
+                else:
+                    c.violation("torn-file-between-syscalls" if hasfav else "torn-first-save-between-syscalls",
+                                "%s: a process killed at %s leaves %s: neither %s nor the complete new image (%d bytes)"
+                                % (label, at, "no .fav at all" if cur is None else "a .fav of %d bytes" % len(cur), before, len(NEW)),
+                                dict(rp, kill_at_call=k, got=".fav = " + showf(cur), expected_fav="%s, or %s" % (showf(OLD), showf(NEW)),
+                                     replay="run the case line through build/implrun C19 (the child is re-executed under ptrace and killed at call k)"))
+            if cur is None:
+                want_load = [("converted",)] if fav4 is not None else [("nil",)]
+            else:
+                want_load = [("tree", w) for w, img in ((want_old, OLD), (want_new, NEW)) if img == cur]
+            if hasfav and cur is None:
+                want_load = []           # the favourites are gone: whatever Load answers is not the old or the new tree
+            if load not in want_load:
+                c.violation("load-after-kill", "%s: after a kill at %s fav.Load %s" % (label, at,
+                            "fails with error %s" % load[1] if load[0] == "error" else load[0] if load[0] in ("crash", "hang") else
+                            "finds no favourites" if load[0] == "nil" else "re-runs the .fav4 conversion over the save in progress" if load[0] == "converted" else "does not return the old or the new tree"),
+                            dict(rp, kill_at_call=k, got=repr(load)[:400], expected_load=repr([("tree", want_old), ("tree", want_new)])[:400], fav=showf(cur)))
+            if files.get(F_FAV4, [None]) != [fav4] or files.get(F_STALE, [None]) != [stale] or 9 in files:
+                c.violation("save-touches-other-file", "%s: at %s .fav4 / a stale temporary file / another file of the home changed" % (label, at),
+                            dict(rp, kill_at_call=k, got=repr({k_: v for k_, v in files.items() if k_ in (F_FAV4, F_STALE, 9)})[:400]))
+        if gate_open and K < 3:
+            c.violation("syscalls-not-seen", "%s: ptrace saw only %d file-system calls of a save" % (label, K), dict(rp, got=res[:100]))
+        if not gate_open and K != 0:
+            c.violation("gate-writes", "%s: a save that must not write issued %d file-system calls" % (label, K), dict(rp, got=res[:100]))
+    c.count(ncalls9, "kills at the entry of a file-system call of a save (one ptrace-d child process each)")
+    c.cov["distribution"]["killed children per kind of save (system-call granularity)"] = dist9
+    c.cov["exhaustive_parts"].append("every file-system call (as seen by ptrace: open for writing, write, rename, unlink, truncate, link, mkdir, chmod ...) of the saves of all %d forests of <= 2 entries "
+                                     "over an older .fav, over a .fav of the same / a newer mtime, as first save, with and without .fav4 and a stale temporary file: %d killed children"
+                                     % (len(small2), ncalls9))
+    c.sample({"op": "system-call kill sweep", "case": l9[0], "result": o9[0][:200]})
+    lap("8 system-call kill sweep")
 
 
 if __name__ == "__main__":
